@@ -6,6 +6,16 @@ impl BitSet {
     pub uninterp spec fn view(&self) -> ISet<usize>;
 
     #[verifier::external_body]
+    pub fn new() -> (r: BitSet)
+        ensures forall|x: usize| !r@.contains(x),
+    { unimplemented!() }
+
+    #[verifier::external_body]
+    pub fn with_capacity(nbits: usize) -> (r: BitSet)
+        ensures forall|x: usize| !r@.contains(x),
+    { unimplemented!() }
+
+    #[verifier::external_body]
     pub fn insert(&mut self, value: usize) -> (r: bool)
         ensures final(self)@ == old(self)@.insert(value),
     { unimplemented!() }
